@@ -87,6 +87,11 @@ const std::vector<GrammarSpec> &handwritten_good() {
                     {{"a", 3}, {"b", 5}, {"c", 9}},
                     {R("s", {"a", "s", "b"}, "n", 0, true, {-2, 1, 0}), R("s", {"c"}, nullptr, 0, true, {0}),
                      R("s", {}, nullptr, 0, false)}));
+  // code layouts at the spread where the code lookup changes from a vector to a hash table
+  v.push_back(readg("read-edge-a", {{"a", 1}, {"b", 9997}}, {R("s", {"a", "s", "b"}, "n", 0, true, {1}), R("s", {"b"}, nullptr, 0, true, {0})}));
+  v.push_back(readg("read-edge-b", {{"a", 1}, {"b", 9998}}, {R("s", {"a", "s", "b"}, "n", 0, true, {1}), R("s", {"b"}, nullptr, 0, true, {0})}));
+  v.push_back(readg("read-edge-c", {{"a", 3}, {"b", 9998}, {"c", 30000}},
+                    {R("s", {"a", "s", "b"}, "n", 0, true, {1}), R("s", {"c"}, nullptr, 0, true, {0}), R("s", {"b", "c"}, "m", 1, true, {0, 1})}));
   // abstract nodes with an empty name (only the callback route can say that)
   v.push_back(readg("read-noname",
                     {{"a", 1}, {"p", 2}},
@@ -151,6 +156,19 @@ GrammarSpec gen_grammar(Rng &r) {
     else if (style == 1) code += r.range(1, 3);
     else if (style == 2) code += r.range(1, 9) * (r.chance(1, 3) ? 100 : 1);
     else code += r.chance(1, 2) ? r.range(9000, 12000) : r.range(1, 5);
+  }
+  // one layout in eight straddles the spread at which yaep changes its code lookup from a vector to a hash table
+  // (largest code - smallest code, the smallest being that of the internal `error' terminal, around 10000)
+  if (r.chance(1, 8)) {
+    g.terms.back().code = 9994 + r.range(0, 8);
+    if (g.terms.size() > 2 && r.chance(1, 2)) g.terms[g.terms.size() - 2].code = g.terms.back().code - r.range(1, 3);
+    for (size_t i = 0; i + 2 < g.terms.size(); i++) if (g.terms[i].code >= 9000) g.terms[i].code = (int)i * 3 + 1;
+    if (r.chance(1, 3)) { g.terms[0].code = g.terms.back().code + r.range(1, 20000); }
+    std::set<int> used;
+    for (size_t i = g.terms.size(); i-- > 0;) {  // keep the codes distinct (the edge codes win)
+      while (used.count(g.terms[i].code)) g.terms[i].code++;
+      used.insert(g.terms[i].code);
+    }
   }
   if (r.chance(1, 4)) std::swap(g.terms[0], g.terms[(size_t)r.below(g.terms.size())]);
   auto N = [](int i) { char b[16]; snprintf(b, sizeof b, "n%d", i); return std::string(b); };
@@ -561,8 +579,12 @@ Plan gen_hist_plan(uint64_t seed, bool oom, int focus) {
         if (!decl.empty()) { lo = *decl.begin(); hi = *decl.rbegin(); }
         int c = 0;
         for (int tries = 0; tries < 50; tries++) {
-          int w = (int)r.below(4);
-          if (w == 0) c = hi + r.range(1, 3);
+          int w = (int)r.below(5);
+          if (w == 4 && !decl.empty()) { // a neighbour of a declared code
+            auto it = decl.begin();
+            std::advance(it, (long)r.below(decl.size()));
+            c = *it + (r.chance(1, 2) ? 1 : -1);
+          } else if (w == 0 || w == 4) c = hi + r.range(1, 3);
           else if (w == 1) c = lo > 0 ? (int)r.below((uint64_t)lo) : hi + 1;
           else if (w == 2) c = lo + (int)r.below((uint64_t)(hi - lo + 1));
           else c = hi + r.range(9990, 10010);
